@@ -101,6 +101,15 @@ Definition ms (ns : Z) : Q := Qred (Qmake ns 1000000).
 Definition Qabs' (q : Q) : Q := if Qle_bool 0 q then q else Qopp q.
 Definition Qmax' (a b : Q) : Q := if Qle_bool a b then b else a.
 
+(* derived figures (Hop::loss_pct, forward_loss_pct, backward_loss_pct, avg_ms, stddev_ms squared) *)
+Definition pct_of (x sent : Z) : Q := if 0 <? sent then Qred (inject_Z x / inject_Z sent * 100) else 0%Q.
+Definition hop_loss_pct (h : hop) : Q := pct_of (h_sent h - h_recv h) (h_sent h).
+Definition hop_fwd_loss_pct (h : hop) : Q := pct_of (h_fwd_lost h) (h_sent h).
+Definition hop_bwd_loss_pct (h : hop) : Q := pct_of (h_bwd_lost h) (h_sent h).
+Definition hop_avg_ms (h : hop) : Q := if 0 <? h_recv h then Qred (ms (h_total_time h) / inject_Z (h_recv h)) else 0%Q.
+(* stddev_ms = sqrt of this; the square root itself is outside the model *)
+Definition hop_variance (h : hop) : Q := if 1 <? h_recv h then Qred (h_m2 h / inject_Z (h_recv h - 1)) else 0%Q.
+
 (* hops[ttl - 1] with usize::from(ttl) - 1: ttl 0 or > 254 is a panic *)
 Definition hop_index (t : Z) : result nat :=
   if (1 <=? t) && (t <=? 254) then Ok (Z.to_nat (t - 1)) else Fault OutOfBounds.
